@@ -50,7 +50,11 @@ StreamsOk ==
     /\ Check(tid, 1, "no-shared-window",
              \A x, y \in 1..Len(S) : (S[x].seed = S[y].seed /\ S[x].nchains = S[y].nchains /\ S[x].idx # S[y].idx)
                                        => {S[x].win[w] : w \in 1..Len(S[x].win)} \cap {S[y].win[w] : w \in 1..Len(S[y].win)} = {})
-    /\ Check(tid, 1, "stream-is-the-documented-one", \A x \in 1..Len(S) : S[x].tok = S[x].ref)
+    \* streams of two chains that lie on one cycle of the generator fewer than 2^64 draws apart overlap in a long enough run
+    \* (T.near: such pairs, found by the harness with the generator's distance function); spawned children lie on different cycles
+    /\ Check(tid, 1, "no-two-chains-on-one-cycle-within-reach",
+             \A p \in 1..Len(T.near) : LET x == T.near[p][1]  y == T.near[p][2] IN
+                 ~(S[x].seed = S[y].seed /\ S[x].nchains = S[y].nchains /\ S[x].idx # S[y].idx))
 TStreams == /\ T.what = "streams" /\ l = 1 /\ StreamsOk /\ l' = 2 /\ UNCHANGED <<vars, tid>>
 
 TDone == /\ l = (IF T.what = "run" THEN Len(T.events) + 1 ELSE 2)
